@@ -1,6 +1,6 @@
 (* Props_C15.v — C15: dissemination accounting for cluster updates. *)
 From Foca Require Import Laws BcastM FocaM L_Bcast L_Fill L_Members L_MembersInv Inv Reach L_Wire L_Dissem L_BacklogOps.
-From Foca Require Import L_TxAccount L_FanOut L_SendTx L_Evidence L_TxPass Concrete ConcreteLaws.
+From Foca Require Import L_TxExact L_TxAccount L_FanOut L_SendTx L_Evidence L_TxPass Concrete ConcreteLaws.
 From Coq Require Import Relations.
 From Coq Require Import Sorted.
 
@@ -60,6 +60,39 @@ Theorem C15_tx_bound (steps : list (fill_step)) (l : backlog Addr) (e : @entry A
   NoDup (map e_key l) -> Forall (fun e => 1 <= e_tx e) l -> In e l ->
   (times_written Addr addr_eqb (e_key e) (fills Addr l steps) <= N.to_nat (e_tx e))%nat.
 Proof. exact (tx_bound Addr addr_eqb addr_eqb_eq steps l e). Qed.
+
+(* ... and leaves the backlog after EXACTLY that many: over any sequence of fills (nothing accepted
+   for the address in between - otherwise C15_latest_only: the fresher update supersedes it), an
+   entry whose address is no longer pending was written exactly its transmissions-left times
+   (max_transmissions when accepted); more generally transmissions left + times written is
+   conserved and the bytes pending under the address are unchanged; while it has been written
+   fewer times it is still pending *)
+Theorem C15_leaves_after_exactly_that_many (steps : list (fill_step)) (l : backlog Addr) (e : @entry Addr) :
+  NoDup (map e_key l) -> Forall (fun e => 1 <= e_tx e) l -> In e l ->
+  (forall x, In x (fills_end Addr l steps) -> e_key x <> e_key e) ->
+  times_written Addr addr_eqb (e_key e) (fills Addr l steps) = N.to_nat (e_tx e).
+Proof. exact (tx_exact Addr addr_eqb addr_eqb_eq steps l e). Qed.
+
+Theorem C15_transmissions_conserved (steps : list (fill_step)) (l : backlog Addr) (e : @entry Addr) :
+  NoDup (map e_key l) -> Forall (fun e => 1 <= e_tx e) l -> In e l ->
+  ((forall x, In x (fills_end Addr l steps) -> e_key x <> e_key e)
+   /\ times_written Addr addr_eqb (e_key e) (fills Addr l steps) = N.to_nat (e_tx e))
+  \/ (exists x, In x (fills_end Addr l steps) /\ e_key x = e_key e /\ e_data x = e_data e /\ 1 <= e_tx x
+        /\ (N.to_nat (e_tx x) + times_written Addr addr_eqb (e_key e) (fills Addr l steps) = N.to_nat (e_tx e))%nat).
+Proof. exact (tx_conserved Addr addr_eqb addr_eqb_eq steps l e). Qed.
+
+Theorem C15_pending_until_then (steps : list (fill_step)) (l : backlog Addr) (e : @entry Addr) :
+  NoDup (map e_key l) -> Forall (fun e => 1 <= e_tx e) l -> In e l ->
+  (times_written Addr addr_eqb (e_key e) (fills Addr l steps) < N.to_nat (e_tx e))%nat ->
+  exists x, In x (fills_end Addr l steps) /\ e_key x = e_key e /\ e_data x = e_data e
+    /\ (N.to_nat (e_tx x) + times_written Addr addr_eqb (e_key e) (fills Addr l steps) = N.to_nat (e_tx e))%nat.
+Proof. exact (tx_still_pending Addr addr_eqb addr_eqb_eq steps l e). Qed.
+
+Theorem C15_fills_end_meaning (l : backlog Addr) (extra : N) (hint : list N) (room rem : N) (t : list fill_step) :
+  fills_end Addr l [] = l
+  /\ fills_end Addr l ((extra, hint, room, rem) :: t)
+     = fills_end Addr (flat_map (kp Addr) (fill_dec Addr extra (pop_order Addr hint l) room rem)) t.
+Proof. split; reflexivity. Qed.
 
 (* Feed, Announce, TurnUndead and Broadcast datagrams consume nothing *)
 Theorem C15_non_piggyback_consume_nothing (rnd : oracle) (dst : Id) (msg : message Id) (s : @rs Id Addr HO) :
@@ -181,6 +214,18 @@ Example C15_ledger_example :
   /\ total (updates (run_calls ex15_o ex15_f0 ex15_hist)) = 12.
 Proof. vm_compute. auto. Qed.
 
+(* non-vacuity of the exactness clause: two pending updates (3 and 1 transmissions left), four fills of
+   which the second has no room: the first is written exactly 3 times and is then gone; after three
+   fills it is still pending with one transmission left *)
+Definition ex15_l0 : backlog N := [mkEntry 3 [1;2] 7; mkEntry 1 [9] 8].
+Definition ex15_steps : list fill_step := [(0,[],100,10);(0,[],1,10);(0,[],100,10);(0,[],100,10)].
+Example C15_exactness_example :
+  times_written N N.eqb 7 (fills N ex15_l0 ex15_steps) = 3%nat
+  /\ times_written N N.eqb 8 (fills N ex15_l0 ex15_steps) = 1%nat
+  /\ fills_end N ex15_l0 ex15_steps = []
+  /\ fills_end N ex15_l0 (firstn 3 ex15_steps) = [mkEntry 1 [1;2] 7].
+Proof. vm_compute. auto. Qed.
+
 Print Assumptions C15_backlog_operations.
 Print Assumptions C15_backlog_changes_only_so.
 Print Assumptions C15_backlog_invariant.
@@ -200,3 +245,8 @@ Print Assumptions C15_ledger_of_a_history.
 Print Assumptions C15_every_transmission_is_paid_for.
 Print Assumptions C15_history_terms.
 Print Assumptions C15_ledger_example.
+Print Assumptions C15_leaves_after_exactly_that_many.
+Print Assumptions C15_transmissions_conserved.
+Print Assumptions C15_pending_until_then.
+Print Assumptions C15_fills_end_meaning.
+Print Assumptions C15_exactness_example.
